@@ -188,6 +188,13 @@ func (s *sess) heldEv(h int) {
 	s.emit("Held", core.Ev{"h": h, "arr": v, "what": s.held[h-1].what})
 }
 
+// heldEvOne: one of the retained things that the events do not carry (too big) is read again
+func (s *sess) heldEvOne(r *rand.Rand) {
+	if len(s.held) > 0 && s.heldElems() > s.watch {
+		s.heldEv(1 + r.Intn(len(s.held)))
+	}
+}
+
 func (s *sess) heldEvAll() {
 	for h := 1; h <= len(s.held) && !s.dead; h++ {
 		s.heldEv(h)
